@@ -1505,6 +1505,8 @@ def compile_pattern(compiler, pattern):
         ]
         return asty.MatchSequence(value, patterns=patterns)
     elif is_unpack("iterable", value):
+        if not isinstance(value[1], Symbol):
+            compiler._syntax_error(value[1], "the target of a star pattern must be a symbol")
         if mangle(value[1]) == "_":
             return asty.MatchStar(value, name=None)
         return compiler.scope.assign(
